@@ -122,6 +122,12 @@ CLAIMED = {
         note="Lexical variants: property order, separate prompt, comments / blank lines, line continuation, help blocks, tabs, rsource; macros, option env, $(shell), exotic quoting are outside the generated family; order of Kconfig.choices/menus/comments left open; fixtures parsed with IDF_TARGET etc. set.",
         design_ref="DESIGN.md section 3, C04",
     ),
+    "C18": dict(
+        technique="TLA+ transducer of the kconfcheck per-line checker chain (spec/CheckIndent.tla: level stack, forced indent after a continuation, help-text recognition, tab / trailing white-space rule, what one --replace pass writes); canonical and mangled files are run through the real validate_file(replace=True) until OK; TLC (spec/MC_Indent.tla) computes the specification's passes, compares verdict and per-line (indent, tabs, trailing) after every pass, and evaluates CanonicalOK / Converges / Idempotent / SameProgram on model and observations",
+        text="Model checking of a transducer + replay: for every canonical file and every mangling of 1-3 lines TLC folds the specification's Pass until it reports OK and compares each pass with the real tool's result on the same file; convergence within 6 passes, idempotence of a further pass, no suggestion file left, byte identity for compliant files, and both parsers reading the accepted file like the original are evaluated on the observations.",
+        note="Component-style files (no mainmenu) from generated programs with names satisfying the naming rules; name rules, the 120-character rule and SourceChecker are not exercised; sdkconfig.rename files are handled by the harness only (three cases). Open findings: under-indented help text starting with a keyword; tab-indented entry line after a help block.",
+        design_ref="DESIGN.md section 3, C18",
+    ),
 }
 
 REASON_PENDING = "check not built yet in this session (planned in DESIGN.md section 3); not claimed until its TLA+ model and conformance harness exist"
